@@ -364,6 +364,8 @@ def run(eng, rep):
     rep.guarded(rule_design_matrix_from_evaluated_positions, eng, rep)
     rep.guarded(rule_together, eng, rep)
     rep.guarded(rule_snapshot_is_copy, eng, rep)
+    from .records import rule_snapshots_are_copies
+    rep.guarded(rule_snapshots_are_copies, eng, rep, "C11-2b.saved-jacobian-and-its-labels-do-not-alias-live-arrays", [("f", "Model", f) for f in ("jacsave", "jacsave_eval_nums")], "the saved Jacobian")
     rep.guarded(rule_roles, eng, rep, A, rule="C11-3.labels-are-point-numbers")
     from .c03 import rule_tuple_coherence
     rep.guarded(rule_tuple_coherence, eng, rep, A, rule="C11-1b.jacobian-and-labels-come-from-the-same-record")
